@@ -1,0 +1,98 @@
+//go:build verif
+
+package kernel
+
+import (
+	"github.com/MixinNetwork/mixin/common"
+	"github.com/MixinNetwork/mixin/crypto"
+	"github.com/MixinNetwork/mixin/storage"
+	"github.com/dgraph-io/ristretto/v2"
+)
+
+// Verification hooks (add-only, build tag verif) for the membership views and
+// finalization verification: a light node constructor over a real store, and
+// thin exported wrappers around unexported methods.  No logic lives here.
+
+const (
+	VerifC09ConsensusNodeRemovalSignerSetForkAt = mainnetConsensusNodeRemovalSignerSetForkAt
+	VerifC09NodeRemovalHackSnapshotHash         = mainnetNodeRemovalHackSnapshotHash
+	VerifC09OneDay                              = OneDay
+)
+
+// VerifC09NewMembershipNode builds a Node whose membership is loaded from store by
+// the real LoadConsensusNodes, with a fresh verification cache.
+func VerifC09NewMembershipNode(store storage.Store, networkId crypto.Hash, epoch uint64, genesis []crypto.Hash) (*Node, error) {
+	cache, err := ristretto.NewCache(&ristretto.Config[[]byte, any]{
+		NumCounters: 1e5,
+		MaxCost:     1 << 26,
+		BufferItems: 64,
+	})
+	if err != nil {
+		return nil, err
+	}
+	node := &Node{
+		Epoch:           epoch,
+		networkId:       networkId,
+		persistStore:    store,
+		cacheStore:      cache,
+		genesisNodesMap: make(map[crypto.Hash]bool),
+		chains:          &chainsMap{m: make(map[crypto.Hash]*Chain)},
+	}
+	for _, id := range genesis {
+		node.genesisNodesMap[id] = true
+		node.genesisNodes = append(node.genesisNodes, id)
+	}
+	err = node.LoadConsensusNodes()
+	if err != nil {
+		return nil, err
+	}
+	return node, nil
+}
+
+func (node *Node) VerifC09ReloadConsensusNodes() error { return node.LoadConsensusNodes() }
+
+func (node *Node) VerifC09CloseCache() { node.cacheStore.Close() }
+
+// VerifC09CacheWait blocks until buffered cache writes are applied.
+func (node *Node) VerifC09CacheWait() { node.cacheStore.Wait() }
+
+func (node *Node) VerifC09CacheClear() { node.cacheStore.Clear() }
+
+// VerifC09Chain builds a chain handle: pledging == (no state && info != nil).
+func (node *Node) VerifC09Chain(chainId crypto.Hash, info *CNode, hasState bool) *Chain {
+	chain := &Chain{node: node, ChainId: chainId, ConsensusInfo: info}
+	if hasState {
+		chain.State = &ChainState{}
+	}
+	return chain
+}
+
+func (chain *Chain) VerifC09VerifyFinalization(s *common.Snapshot) ([]crypto.Hash, bool) {
+	return chain.verifyFinalization(s)
+}
+
+func (node *Node) VerifC09CacheVerifyCosi(snap crypto.Hash, sig *crypto.CosiSignature, cids []crypto.Hash, publics []*crypto.Key, threshold int) ([]crypto.Hash, bool) {
+	return node.cacheVerifyCosi(snap, sig, cids, publics, threshold)
+}
+
+func (node *Node) VerifC09NodeSequenceWithoutState(threshold uint64, acceptedOnly bool) []*CNode {
+	return node.nodeSequenceWithoutState(threshold, acceptedOnly)
+}
+
+func (node *Node) VerifC09AllNodesSortedWithState() []*CNode { return node.allNodesSortedWithState }
+
+func (node *Node) VerifC09ElectSnapshotNode(operation byte, now uint64) crypto.Hash {
+	return node.electSnapshotNode(operation, now)
+}
+
+func (node *Node) VerifC09RemovingOrSlashingNodeAt(timestamp uint64) *CNode {
+	return node.removingOrSlashingNodeAt(timestamp)
+}
+
+func (node *Node) VerifC09GetAcceptedOrPledgingNode(id crypto.Hash, timestamp uint64) *CNode {
+	return node.getAcceptedOrPledgingNode(id, timestamp)
+}
+
+func (node *Node) VerifC09UsePredictiveNodeRemovalSignerSet(timestamp uint64) bool {
+	return node.usePredictiveNodeRemovalSignerSet(timestamp)
+}
